@@ -710,6 +710,15 @@ Definition xanc_chain (anc : list xanc) : list name :=
 Definition xanc_size (anc : list xanc) : nat :=
   fold_right (fun a n => let '(_, _, attrs) := a in 1 + 2 * List.length attrs + n) 0 anc.
 
+(* {"k":{"k1":{ ... C ... }}}: objects with one member each around a container C of records,
+   which is an object keyed by ids ([arr] = false) or an array. *)
+Fixpoint jnest (key : bytes) (keys : list bytes) (arr : bool) (recs : list jnode) : jnode :=
+  match keys with
+  | [] => if arr then JA key recs else JO key recs
+  | k :: ks => JO key [jnest k ks arr recs]
+  end.
+Definition jkeys_chain (keys : list bytes) : list name := map (fun k => ([], k)) keys.
+
 (* ---- C17: the record-at-a-time readers --------------------------------------------------------- *)
 (* flatfile/hierarchyReader.go (csv2, fixedlength2), edi/reader.go, fixedlength/reader.go and
    csv/reader.go as far as retention goes: a record node is created, attached as last child of
@@ -743,6 +752,24 @@ Section Flat.
           let kids' := fl_kids st ++ [x] in                   (* idr.AddChild(parent, node) *)
           if pass then (mkFS kids' true, Some (x, above + fl_size kids'))
           else (mkFS (removelast kids') false, None)          (* RemoveAndReleaseTree(node) *)
+    end.
+
+  (* Release(n) for the node the reader returned last: if r.target == n { r.target = nil };
+     RemoveAndReleaseTree(n) *)
+  Definition flat_release (st : fstate) : fstate :=
+    if fl_target st then mkFS (removelast (fl_kids st)) false else st.
+
+  (* The same loop with the caller's Release calls made explicit: [rel] says, per record, whether
+     the ingester released the previously returned node before this reader activity (it does so
+     whenever it holds one - also when that record's transform failed; a caller that never
+     releases is the all-false list). *)
+  Fixpoint flat_run_rel (st : fstate) (rel : list bool) (recs : list frec) : list (R * nat) :=
+    match recs with
+    | [] => []
+    | rc :: rest =>
+        let st0 := if hd false rel then flat_release st else st in
+        let '(st1, d) := flat_step (flat_prologue st0) rc in
+        match d with Some x => [x] | None => [] end ++ flat_run_rel st1 (tl rel) rest
     end.
 
   Fixpoint flat_run (st : fstate) (recs : list frec) : list (R * nat) :=
